@@ -1,2 +1,124 @@
-/- driver stub for C14: replaced when the model exists -/
-def main : IO Unit := pure ()
+/- driver for C14: the scheduler model (Model.Task) in lockstep with the real
+   TaskManager / core.run / core.run_once.
+
+   request                                         meaning
+   {"op":"reset","tpu":k,"tasks":[{"rec":b,"raises":b,"defers":[fn…]}…]}
+                                                   fresh world; k ticks per µs (jitter = k ticks)
+   {"op":"at","t":i,"when":n}                      task i .install_task(when=n)
+   {"op":"after","t":i,"d":n}                      .install_task(delta=n)
+   {"op":"bare","t":i}                             .install_task()
+   {"op":"rec","t":i,"iv":n|null,"off":n|null}     recurring .install_task(interval, offset)
+   {"op":"suspend","t":i} {"op":"resume","t":i}
+   {"op":"defer","f":fn}                           core.deferred(fn)
+   {"op":"tick","d":n}                             clock += n
+   {"op":"next"}                                   one get_next_task + process_task
+   {"op":"once","d":n}                             clock += n; core.run_once()
+   {"op":"run","d":n,"fuel":m}                     core.run() until now + n
+   {"op":"jump","fuel":m}                          core.run() until the armed deadline
+   fn = {"id":n,"r":bool,"k":[fn…]}
+   All times in requests are ticks; all times in replies are µs (rounded to
+   nearest, which is exact for tpu = 1).
+-/
+import BacVerif.Drv.Common
+import BacVerif.Model.Task
+open Lean BacVerif.Drv BacVerif.Task
+
+structure St where
+  w : World := {}
+  n : Nat := 0        -- number of tasks (for the digest)
+  tpu : Nat := 1
+
+partial def fnOfJson (j : Json) : R Fn := do
+  let kids ← (← fldArr j "k").toList.mapM fnOfJson
+  pure (Fn.mk (← fldNat j "id") (← fldBool j "r") kids)
+
+def us (tpu t : Nat) : Nat := (2 * t + tpu) / (2 * tpu)
+
+def jEv (tpu : Nat) : Ev → Json
+  | .fire tid now due seq => Json.arr #["fire", Json.num tid, Json.num (us tpu now), Json.num (us tpu due), Json.num seq]
+  | .call id => Json.arr #["call", Json.num id]
+  | .taskErr tid => Json.arr #["terr", Json.num tid]
+  | .fnErr id => Json.arr #["ferr", Json.num id]
+  | .raised k => Json.arr #["raised", Json.str k.name]
+
+/-- entries sorted by (time, seq): repeated popMin -/
+def sortedEntries : Nat → List Entry → List Entry
+  | 0, _ => []
+  | fuel + 1, h =>
+    match popMin h with
+    | none => []
+    | some (e, rest) => e :: sortedEntries fuel rest
+
+def digest (s : St) : Json :=
+  let tm := s.w.tm
+  let ids := List.range s.n
+  Json.mkObj [
+    ("heap", Json.arr ((sortedEntries tm.heap.length tm.heap).map fun e =>
+        Json.arr #[Json.num (us s.tpu e.time), Json.num e.seq, Json.num e.tid]).toArray),
+    ("flags", Json.arr (ids.map fun i => Json.bool (tm.flag i)).toArray),
+    ("ttime", Json.arr (ids.map fun i => jNatOpt ((tm.ttime i).map (us s.tpu))).toArray),
+    ("trig", Json.bool tm.trig),
+    ("queue", Json.arr (s.w.queue.map fun f => Json.num f.id).toArray)]
+
+def reply (s : St) (aux : Option Nat) : St × Json :=
+  let j := Json.mkObj [
+    ("r", "ok"),
+    ("out", Json.arr (s.w.out.map (jEv s.tpu)).toArray),
+    ("now", Json.num (us s.tpu s.w.now)),
+    ("deadline", jNatOpt (s.w.tm.deadline.map (us s.tpu))),
+    ("aux", jNatOpt aux),
+    ("digest", digest s)]
+  ({ s with w := { s.w with out := [] } }, j)
+
+def optNat (j : Json) (k : String) : R (Option Nat) := fldOptNat j k
+
+def handle (s : St) (j : Json) : R (St × Json) := do
+  let op ← fldStr j "op"
+  if op == "reset" then
+    let tpu := fldNatD j "tpu" 1
+    let ts ← fldArr j "tasks"
+    let specs ← ts.toList.mapM fun t => do
+      let defers ← (← fldArr t "defers").toList.mapM fnOfJson
+      pure ((← fldBool t "rec"), ({ raises := (← fldBool t "raises"), defers := defers } : Body))
+    let w : World := {
+      tm := { jitter := tpu },
+      recurring := fun i => match specs[i]? with | some (r, _) => r | none => false,
+      body := fun i => match specs[i]? with | some (_, b) => b | none => {} }
+    return ({ w := w, n := specs.length, tpu := tpu }, Json.mkObj [("r", "ok")])
+  let tid : R Nat := do
+    let t ← fldNat j "t"
+    if t < s.n then pure t else throw "no such task"
+  let mop : Op ← match op with
+    | "at" => do
+        let t ← tid
+        if s.w.recurring t then throw "install_task(when) on a recurring task"
+        pure (Op.installAt t (← fldNat j "when"))
+    | "after" => do
+        let t ← tid
+        if s.w.recurring t then throw "install_task(delta) on a recurring task"
+        pure (Op.installAfter t (← fldNat j "d"))
+    | "bare" => do
+        let t ← tid
+        if s.w.recurring t then throw "use rec"
+        pure (Op.installBare t)
+    | "rec" => do
+        let t ← tid
+        if !s.w.recurring t then throw "rec on a one-shot task"
+        pure (Op.installRec t (← optNat j "iv") (← optNat j "off"))
+    | "suspend" => do pure (Op.suspend (← tid))
+    | "resume" => do pure (Op.resume (← tid))
+    | "defer" => do pure (Op.defer (← fnOfJson (← fld j "f")))
+    | "tick" => do pure (Op.tick (← fldNat j "d"))
+    | "next" => pure Op.next
+    | "once" => do pure (Op.advOnce (← fldNat j "d"))
+    | "run" => do pure (Op.advRun (← fldNat j "d") (← fldNat j "fuel"))
+    | "jump" => do pure (Op.jumpRun (← fldNat j "fuel"))
+    | o => throw s!"unknown op {o}"
+  let (w', aux) := s.w.step mop
+  -- `delta` of `next` is a duration in ticks
+  let aux := match mop with
+    | .next => aux.map (us s.tpu)
+    | _ => aux
+  pure (reply { s with w := w' } aux)
+
+def main : IO Unit := loopS ({} : St) handle
